@@ -16,6 +16,7 @@ def build():
         ("T-FMT", r"DEFAULT_LOG_LEVEL\.to_string\(\)\.to_lowercase\(\)", "crate::opaque_string()", None),
         ("T-LOG", r"eprintln!\((?:[^()]|\([^()]*\))*\);", "();", None),
         ("T-MAP", r"(?P<m>\w+)\s*\.get_one::<String>\((?P<k>[^()]*)\)\s*\.map\(\|e\| e\.as_str\(\)\)", lambda m: f"crate::clap::opt_as_str({m.group('m')}.get_one_string({m.group('k')}))", None),
+        ("T-MAP", r"(?P<m>\w+)\s*\.get_one::<String>\((?P<k>[^()]*)\)(?!\s*\.map\(\|e\| e\.as_str)", lambda m: f"{m.group('m')}.get_one_string({m.group('k')})", None),
         ("T-MAP", r"(?P<m>\w+)\s*\.get_many::<String>\((?P<k>[^()]*)\)", lambda m: f"{m.group('m')}.get_many_string({m.group('k')})", None),
         ("T-ITER", r"(?P<v>\w+)\.map\(\|e\| e\.as_str\(\)\)\.collect\(\)", lambda m: f"crate::clap::values_as_strs({m.group('v')})", None),
         ("T-STD", r"std::process::exit\(", "crate::shims::exit(", None),
